@@ -2351,3 +2351,23 @@ silent_multi("c05-optimizer-deepcopy-at-use", ["C05"], OPF, [
 silent("c05-optimizer-no-memo", ["C05"], OPF,
        "@lru_cache\ndef _get_ast_for_file(filename):",
        "def _get_ast_for_file(filename):")
+
+fire("c19-polynomial-bool-missing", ["C19"], POL,
+     "    def __bool__(self):\n        return len(self.Data) != 0\n\n"
+     "    __nonzero__ = __bool__\n",
+     "    def __nonzero__(self):\n        return len(self.Data) != 0\n",
+     "S/truthiness/Polynomial")
+fire("c19-sort-uniq-keeps-cancelled-exponent", ["C19"], POL,
+     "                uniq_result.pop()\n"
+     "                # the entry for this exponent is gone\n"
+     "                last_exp = None\n",
+     "                uniq_result.pop()\n",
+     "P/_sort_uniq/cancelled-term-forgets-exponent")
+fire("c19-rational-true-division", ["C19"], RAT,
+     "        numerator //= d_unit\n        denominator //= d_unit",
+     "        numerator /= d_unit\n        denominator /= d_unit",
+     "P/Rational.__init__/exact-unit-division")
+silent("c19-rational-multiply-by-unit", ["C19"], RAT,
+       "        numerator //= d_unit\n        denominator //= d_unit",
+       "        numerator = numerator * d_unit\n"
+       "        denominator = denominator * d_unit")
